@@ -136,10 +136,6 @@ def isTimingB : Body → Bool
 theorem tag_timing (cfg : Cfg) : Tag cfg isTimingB := ⟨by intros; rfl, by intros; rfl, by intros; rfl⟩
 theorem ctlIO_timing : CtlIO isTimingB := by intro _ _ _ _ _ _; rfl
 
-theorem dataSends_of_QE {B : Body → Bool} {s s' : State} (h : QE B s s') : dataSends B s'.out = dataSends B s.out := by
-  obtain ⟨ext, ho, hq⟩ := h
-  rw [ho, dataSends_append, hq]; simp
-
 /-- **every TIMING_MESSAGE frame of the periodic section is the report built from the counter table and the module
     table as they are when the section starts** — and there is one only when the TIMING period has elapsed -/
 theorem ticks_timing (cfg : Cfg) (s : State) :
